@@ -127,7 +127,9 @@ def _witness_failure(fn):
         try:
             with contextlib.redirect_stdout(io.StringIO()):
                 v = fn(*args)
-        except Exception:
+        except Exception as e:
+            if type(e).__name__ == 'Inconclusive':
+                continue
             return args
         if v is not True:
             return args
@@ -169,7 +171,9 @@ def _work(spec, conn):
                 else:
                     rp = replay_concrete(spec, r['args'], r['kwargs'])
                     res['cex'] = dict(args=r['args'], kwargs=r['kwargs'])
-                    if rp.get('reproduced'):
+                    if rp.get('inconclusive'):
+                        res.update(verdict='INCONCLUSIVE', reason='harness cannot judge: ' + rp['inconclusive'])
+                    elif rp.get('reproduced'):
                         res.update(verdict='REFUTED', detail=rp.get('detail'), exception=rp.get('exception'))
                     elif spec['params'].get('_twin') == 'reach' and rp.get('failed_concretely'):
                         # the vacuity twin asked for an input on which the harness returns True; the engine produced one, but run concretely on the real code
